@@ -83,6 +83,7 @@ func cmdCheck(argv []string) int {
 	dirFlag := fs.String("dir", "", "override module dir")
 	timeout := fs.Int("timeout", 0, "per-solver timeout (s)")
 	verbose := fs.Bool("v", false, "verbose")
+	knownPath := fs.String("known", "", "JSON list of obligation names recorded as open known findings (short timeout)")
 	skipPath := fs.String("skip", "", "json list of sweep obligations that are undecided on the unchanged tree (not solved, not claimed)")
 	fs.Parse(argv)
 	t0 := time.Now()
@@ -288,6 +289,22 @@ func cmdCheck(argv []string) int {
 		}
 		for _, n := range names {
 			skip[n] = true
+		}
+	}
+	// obligations recorded as open known findings: they are expected to fail; one solver, short timeout
+	if *knownPath != "" {
+		var names []string
+		if data, err := os.ReadFile(*knownPath); err == nil {
+			json.Unmarshal(data, &names)
+		}
+		kn := map[string]bool{}
+		for _, n := range names {
+			kn[n] = true
+		}
+		for _, o := range obls {
+			if kn[o.Name] {
+				o.Quick = true
+			}
 		}
 	}
 	var toSolve []*Obligation
